@@ -384,3 +384,115 @@ class BuildLock:
     def __exit__(self, *a):
         fcntl.flock(self.f, fcntl.LOCK_UN)
         self.f.close()
+
+
+# ------------------------------------------------------------------------------------------------ source hints (white-box support of the search)
+# Numeric literals of the CURRENT source that the pinned source (corpus/literals_baseline.json, written by `tools/literal_baseline.py`)
+# does not have in the same function.  They never decide anything: they only steer the failing-input search (sizes around a new
+# integer constant, values around a new float constant), because a threshold that a change introduces can always lie just above
+# whatever fixed sizes a generator uses (DESIGN §11.4 lesson 19).
+LITERAL_BASELINE = os.path.join(VERIF, 'corpus', 'literals_baseline.json')
+
+
+def source_literals(repo=None):
+    """{ 'eqsig/im.py::calc_cav': [sorted numeric literals of the function body] } for every function of the library (methods as
+    Class.method); module-level statements under '<module>'."""
+    import ast
+    repo = repo or REPO
+    out = {}
+    root = os.path.join(repo, 'eqsig')
+    for d, _, files in os.walk(root):
+        for f in sorted(files):
+            if not f.endswith('.py'):
+                continue
+            p = os.path.join(d, f)
+            rel = os.path.relpath(p, repo)
+            try:
+                tree = ast.parse(open(p).read())
+            except Exception:
+                continue
+
+            def lits(node):
+                vals = []
+                for n in ast.walk(node):
+                    if isinstance(n, ast.Constant) and isinstance(n.value, (int, float)) and not isinstance(n.value, bool):
+                        vals.append(n.value)
+                return vals
+
+            def visit(node, prefix):
+                for ch in ast.iter_child_nodes(node):
+                    if isinstance(ch, (ast.FunctionDef, ast.AsyncFunctionDef)):
+                        out.setdefault(f"{rel}::{prefix}{ch.name}", []).extend(lits(ch))
+                    elif isinstance(ch, ast.ClassDef):
+                        visit(ch, prefix + ch.name + '.')
+            visit(tree, '')
+            mod_level = []
+            for ch in tree.body:
+                if not isinstance(ch, (ast.FunctionDef, ast.AsyncFunctionDef, ast.ClassDef)):
+                    mod_level.extend(lits(ch))
+            out[f"{rel}::<module>"] = mod_level
+    return {k: sorted(v, key=lambda x: (float(x), repr(x))) for k, v in out.items()}
+
+
+class Hints:
+    """new numeric literals of the current source (vs the pinned baseline), optionally restricted to some files"""
+
+    def __init__(self, new):
+        self.new = new                       # list of {'function', 'value'}
+
+    def restrict(self, files):
+        files = tuple(files or ())
+        return Hints([h for h in self.new if not files or h['function'].split('::')[0] in files])
+
+    def __bool__(self):
+        return bool(self.new)
+
+    def ints(self, lo=2, hi=2 ** 26):
+        vals = set()
+        for h in self.new:
+            v = h['value']
+            if isinstance(v, float) and v.is_integer() and abs(v) < 2 ** 53:
+                v = int(v)
+            if isinstance(v, int) and lo <= abs(v) <= hi:
+                vals.add(abs(v))
+        return sorted(vals)
+
+    def floats(self):
+        return sorted({float(h['value']) for h in self.new if float(h['value']) not in (0.0, 1.0, -1.0, 2.0)})
+
+    def sizes(self, lo=2, hi=2 ** 22, cap=12):
+        """record lengths / counts worth trying: around every new integer constant, its neighbours and a little beyond"""
+        s = set()
+        for v in self.ints(lo, hi):
+            for c in (v - 1, v, v + 1, v + 2, 2 * v + 1):
+                if lo <= c <= hi:
+                    s.add(c)
+        return sorted(s)[:cap]
+
+    def near_values(self, cap=24):
+        """float parameter values around every new constant (both sides, and exactly)"""
+        s = []
+        for v in self.floats():
+            for m in (1.0, 0.999, 1.001, 0.5, 2.0, 0.9, 1.1):
+                s.append(v * m)
+        return s[:cap]
+
+    def describe(self):
+        return [f"{h['function']}: {h['value']!r}" for h in self.new][:40]
+
+
+def source_hints(repo=None):
+    try:
+        base = json.load(open(LITERAL_BASELINE))
+    except Exception:
+        return Hints([])
+    cur = source_literals(repo)
+    new = []
+    for fn, vals in cur.items():
+        old = list(base.get(fn, [])) if fn in base else None
+        for v in vals:
+            if old is not None and v in old:
+                old.remove(v)
+                continue
+            new.append({'function': fn, 'value': v})
+    return Hints(new)
